@@ -119,6 +119,8 @@ package chainntnfs
 //@   site store ConfNtfn.dispatched: assert old(ntfn.dispatched) && !value
 //@   site call delete: assert !ntfn.dispatched && arg(1) == ntfn && arg(0) == ntfnSet
 //@   site lookup ntfnsByConfirmHeight: assert !ntfn.dispatched && arg(key) == wrap(heightDisconnected + ntfn.NumConfirmations - 1, 32)
+//@   // success means the registration is back to 'not confirmed': a later confirmation on the new chain is delivered again
+//@   ensures result == nil ==> !ntfn.dispatched
 //@
 //@ func (n *TxNotifier) dispatchSpendReorg
 //@   props C14
@@ -126,6 +128,7 @@ package chainntnfs
 //@   site send Reorg: assert ntfn.dispatched
 //@   site store SpendNtfn.dispatched: assert old(ntfn.dispatched) && !value
 //@   ensures !old(ntfn.dispatched) ==> result == nil && !ntfn.dispatched
+//@   ensures result == nil ==> !ntfn.dispatched
 //@
 //@ func (n *TxNotifier) dispatchSpendDetails
 //@   props C14
